@@ -25,7 +25,7 @@ man = dict(
                baseline_off_cmd="cd /repo && cargo test --workspace --no-fail-fast --offline", source_commits=[], add_only=True),
     engines=[
         dict(name="engine V", path="engine/run_verus.py", serves_properties=sorted(p for p in mod.PROPS if mod.PROPS[p].get("verus")),
-             kind_free_text="contract-based deductive verification: Verus on functions extracted mechanically from /repo on every run (rules R0-R17, TYPE-SUBST, BLOCK, slices), contracts/invariants spliced at structural anchors"),
+             kind_free_text="contract-based deductive verification: Verus on functions extracted mechanically from /repo on every run (rules R0-R18, TYPE-SUBST, BLOCK, slices), contracts/invariants spliced at structural anchors"),
         dict(name="engine K", path="engine/run_kani.py", serves_properties=sorted(mod.KANI_PROPS),
              kind_free_text="Kani function contracts and harnesses on the real bodies, annotated in place in a scratch copy; loop-free harnesses are complete proofs, array harnesses are labelled bounded"),
     ],
